@@ -1,10 +1,10 @@
 P = __file__.rsplit("/units/", 1)[0] + "/prelude/"
 UNIT = dict(
     id="c06_threshold_player_step",
-    prelude=["floats.rs"],
-    canary_use="broadcast use fl; ax_obeys();",
+    prelude=["floats.rs", "ideal.rs"],
+    canary_use="broadcast use fl; broadcast use ideal; ax_obeys(); ax_rv_lits();",
     assumptions=[
-        "uninterpreted floats",
+        "idealised-real float mode for the reach product",
         "BLOCK: body of the loop over a decision node's actions in vanilla::thread_threshold (the breadth-first frontier expansion), free variables as parameters; every name of the enclosing scope the body could refer to is a parameter with an arbitrary value, so a body that stops initialising its reach vector per action is rejected",
         "PlayerNum::ind_mut two-case spec (Kani harness playernum_ind)",
     ],
@@ -14,8 +14,11 @@ UNIT = dict(
         dict(file="src/lib.rs", path="enum Node"),
         dict(file="src/lib.rs", path="struct Chance", pub_fields=True),
         dict(file="src/lib.rs", path="struct Player", pub_fields=True),
-        dict(raw="""pub open spec fn pnext_spec(num: PlayerNum, p_player: [f64; 2], prob: f64) -> [f64; 2] {
-    match num { PlayerNum::One => [fmul(p_player[0], prob), p_player[1]], PlayerNum::Two => [p_player[0], fmul(p_player[1], prob)] }
+        dict(raw="""pub open spec fn pnext_ok(num: PlayerNum, p_player: [f64; 2], prob: f64, p_next: [f64; 2]) -> bool {
+    match num {
+        PlayerNum::One => rv(p_next[0]) == rv(p_player[0]) * rv(prob) && p_next[1] == p_player[1],
+        PlayerNum::Two => p_next[0] == p_player[0] && rv(p_next[1]) == rv(p_player[1]) * rv(prob),
+    }
 }"""),
         dict(file="src/solve/vanilla.rs", path="fn thread_threshold", loop=1, n_loops=2,
              header_re=r"^for \(prob, next\) in probs\.iter\(\)\.zip\(player\.actions\.iter\(\)\)",
@@ -28,7 +31,7 @@ UNIT = dict(
     final(work)@.len() == old(work)@.len() + 1,
     final(work)@.take(old(work)@.len() as int) == old(work)@,
     final(work)@.last().0 == next && final(work)@.last().1 == p_chance, // @ob C06.V.thread_threshold.frontier_reach
-    final(work)@.last().2@ == pnext_spec(player.num, p_player, *prob)@, // @ob C06.V.thread_threshold.frontier_reach""",
-             entry="broadcast use fl;\nproof { ax_obeys(); }"),
+    pnext_ok(player.num, p_player, *prob, final(work)@.last().2), // @ob C06.V.thread_threshold.frontier_reach""",
+             entry="broadcast use fl; broadcast use ideal;\nproof { ax_obeys(); ax_rv_lits(); }"),
     ],
 )
